@@ -248,7 +248,19 @@ def parts_str(parts):
     return "|".join(str(a) if a == b else "%d..%d" % (a, b) for a, b in parts)
 
 
+def src_flags():
+    """which candidate repairs the source tree under test contains (tools/extractors/compile.py reads them off the C text)"""
+    import importlib.util, os
+    here = os.path.dirname(os.path.dirname(os.path.abspath(__file__)))
+    spec = importlib.util.spec_from_file_location("extractors_compile_flags", os.path.join(here, "extractors", "compile.py"))
+    m = importlib.util.module_from_spec(spec)
+    spec.loader.exec_module(m)
+    return m.flags()
+
+
 class Gen:
+    FIX = {"f390": False, "f391": False, "f392": False}
+
     def __init__(self, rng, idx):
         self.rng, self.idx, self.n = rng, idx, 0
         self.tds, self.tdinfo, self.groups, self.ginfo = [], {}, [], {}
@@ -476,7 +488,8 @@ class Gen:
         if rng.random() < 0.4:
             u = self.uses()
             # a choice at the top level of a module + a foreign augment of its cases: finding F391 (kept to the witness)
-            if not any(len(p) == 1 and n["kind"] == "choice" for p, n in self.flat([u])): top.append(u)
+            if self.FIX["f391"] or not any(len(p) == 1 and n["kind"] == "choice" for p, n in self.flat([u])): top.append(u)
+        if self.FIX["f391"] and rng.random() < 0.3: top.append(self.choice(0, True))     # a choice at the top level (F391 repaired)
         mods[0]["data"] = top
         # augment targets: absolute paths of containers / lists / choices / cases of the base data (after expansion)
         self.gstack = {}
@@ -500,7 +513,7 @@ class Gen:
                     inst = set()
                     for k_ in range(1, len(tp) + 1): inst |= self.gstack.get(tuple(x for _, x in tp[:k_]), set())
                     # a uses of a grouping inside an augment of a node that came from the same grouping: finding F390 (kept to the witness)
-                    if g not in inst and not any(n.get("mand") or n.get("setmin") for _, n in self.flat(body)):
+                    if (self.FIX["f390"] or g not in inst) and not any(n.get("mand") or n.get("setmin") for _, n in self.flat(body)):
                         kids.append({"k": "U", "g": g, "whens": 0, "status": 0, "iffs": [], "refines": [], "augs": []})
                     else: kids.append(self.leaf(allow_mand=False))
                 else:
@@ -683,6 +696,8 @@ def classify_exp(component, what, case):
 # ======================================================================================================================
 def run_exp(cx):
     rng = cx.sub_rng("c11exp")
+    Gen.FIX = src_flags()
+    cx.dist["c11exp:source-has-repairs:" + (",".join(k for k in ("f390", "f391", "f392") if Gen.FIX.get(k)) or "none")] += 1
     nsets = cx.n(90, 1500)
     cx.rule("c11exp: %d generated schema values of the compiler-core DSL (typedef chains reused by several leaves, nested groupings with refines at "
             "several levels and uses-augments, choice/case + shorthand, chained / sibling top-level augments over 1-4 modules, deviations, if-feature, "
